@@ -235,7 +235,28 @@ theorem isPerm_of_perm {axes : List Nat} {n : Nat} (h : axes.Perm (List.range n)
     List.contains_iff_mem]
   exact ⟨by simpa using h.length_eq, fun i hi => h.symm.subset (List.mem_range.mpr hi)⟩
 
-/-! ### `tensordot_fermionic`, block-wise mode -/
+/-! ### what `tensordot_fermionic` needs from the abelian kernel, for a given mode -/
+
+/-- `tensordot_abelian` in `mode`: on operands satisfying the sign-free clauses of validity the
+    result satisfies them too, with the combined charge and the first operand's other fields -/
+def TdotASpec (R : Type) [Zero R] [Add R] [Mul R] (mode : TdotMode) : Prop :=
+  ∀ (a b c : Arr R) (axesA axesB : List Nat), Core a → Core b → a.sym = b.sym →
+    (permuted b.indices axesB).map Index.dual = (permuted a.indices axesA).map (fun ix => !ix.dual) →
+    axesA.length = axesB.length → axesA.Nodup → axesB.Nodup →
+    (∀ i ∈ axesA, i < a.ndim) → (∀ i ∈ axesB, i < b.ndim) →
+    tensordotA a b (.pair (axesA.map Int.ofNat) (axesB.map Int.ofNat)) mode = .ok c →
+    Core c ∧ c.sym = a.sym ∧ c.fermi = a.fermi ∧ c.charge = a.sym.combine [a.charge, b.charge]
+      ∧ c.phases = a.phases ∧ c.oddpos = a.oddpos
+
+theorem tdotASpec_blockwise [Zero R] [Add R] [Mul R] : TdotASpec R .blockwise := by
+  intro a b c axesA axesB ha hb hsym hd hlen hnA hnB hA hB h
+  unfold tensordotA at h
+  rw [parseAxes_nat a.ndim b.ndim axesA axesB hlen hA hB] at h
+  simp only [bind, Except.bind, pure, Except.pure, Except.ok.injEq] at h
+  subst h
+  exact ⟨tensordotBlockwise_core' a b axesA axesB ha hb hsym hd hnA hnB hA hB, rfl, rfl, rfl, rfl, rfl⟩
+
+/-! ### `tensordot_fermionic` -/
 
 /-- the two operands just before `phase_sync` (copy of the model text) -/
 def tdF34 [Zero R] (a b : Arr R) (axesA axesB : List Nat) : Arr R × Arr R :=
@@ -326,11 +347,12 @@ theorem tdF34_props [Zero R] (a b : Arr R) (axesA axesB : List Nat)
     exact ⟨va1, phaseFlip_valid _ _ vb2 hfb, hfa, by rw [e5]; exact hfb, rfl, by rw [e1]; rfl,
       rfl, by rw [e2]; rfl, rfl, by rw [e3]; rfl, rfl, by rw [e4]; rfl⟩
 
-theorem tensordotF_blockwise_valid [Zero R] [Add R] [Mul R] [Neg R] (a b r : Arr R)
+theorem tensordotF_valid_of_spec [Zero R] [Add R] [Mul R] [Neg R] (mode : TdotMode)
+    (hspec : TdotASpec R mode) (a b r : Arr R)
     (axesA axesB : List Nat) (ha : Valid a) (hb : Valid b)
     (hfa : a.fermi = true) (hfb : b.fermi = true)
     (hadm : tdotAdmissibleB a b axesA axesB = true)
-    (h : Arr.tensordotF a b (.pair (axesA.map Int.ofNat) (axesB.map Int.ofNat)) .blockwise = .ok r) :
+    (h : Arr.tensordotF a b (.pair (axesA.map Int.ofNat) (axesB.map Int.ofNat)) mode = .ok r) :
     Valid r := by
   unfold tdotAdmissibleB at hadm
   simp only [Bool.and_eq_true, decide_eq_true_eq, allDistinct_iff, List.all_eq_true] at hadm
@@ -424,19 +446,16 @@ theorem tensordotF_blockwise_valid [Zero R] [Add R] [Mul R] [Neg R] (a b r : Arr
   split at h
   · cases h
   · rename_i c hcres
-    unfold tensordotA at hcres
-    rw [parseAxes_nat a4.ndim b4.ndim newA newB hnewlen hnewAlt hnewBlt] at hcres
-    simp only [bind, Except.bind, pure, Except.pure, Except.ok.injEq] at hcres
-    have hcore := tensordotBlockwise_core' a4 b4 newA newB va4.core vb4.core
-      (by show a3.sym = b3.sym; rw [sa, sb]; exact hsym) hd4 hnewAnd hnewBnd hnewAlt hnewBlt
-    rw [hcres] at hcore
-    have hcf : c.fermi = true := by rw [← hcres, tensordotBlockwise_eq]; exact fa
-    have hcph : c.phases = [] := by rw [← hcres, tensordotBlockwise_eq]; rfl
+    obtain ⟨hcore, hcsym', hcf', hcch', hcph', _⟩ := hspec a4 b4 c newA newB va4.core vb4.core
+      (by show a3.sym = b3.sym; rw [sa, sb]; exact hsym) hd4 hnewlen hnewAnd hnewBnd hnewAlt hnewBlt
+      hcres
+    have hcf : c.fermi = true := by rw [hcf']; exact fa
+    have hcph : c.phases = [] := by rw [hcph']; rfl
     have hcch : c.charge = a.sym.combine [a.charge, b.charge] := by
-      rw [← hcres, tensordotBlockwise_eq]
+      rw [hcch']
       show a3.sym.combine [a3.charge, b3.charge] = _
       rw [sa, ca, cb]
-    have hcsym : c.sym = a.sym := by rw [← hcres, tensordotBlockwise_eq]; exact sa
+    have hcsym : c.sym = a.sym := by rw [hcsym']; exact sa
     apply resolveCombinedOddpos_valid a4 b4 c r hcore hcf (by rw [hcph]; exact phasesOk_nil) _ h
     -- parity bookkeeping
     have hsa := ha.sgn
@@ -445,6 +464,14 @@ theorem tensordotF_blockwise_valid [Zero R] [Add R] [Mul R] [Neg R] (a b r : Arr
     simp only [hfa, hfb, if_true] at hsa hsb
     show c.sym.parity c.charge = xor (a3.oddpos.length % 2 == 1) (b3.oddpos.length % 2 == 1)
     rw [hcsym, hcch, parity_combine_pair', oa, ob, hsa.2, hsb.2, hsym]
+
+theorem tensordotF_blockwise_valid [Zero R] [Add R] [Mul R] [Neg R] (a b r : Arr R)
+    (axesA axesB : List Nat) (ha : Valid a) (hb : Valid b)
+    (hfa : a.fermi = true) (hfb : b.fermi = true)
+    (hadm : tdotAdmissibleB a b axesA axesB = true)
+    (h : Arr.tensordotF a b (.pair (axesA.map Int.ofNat) (axesB.map Int.ofNat)) .blockwise = .ok r) :
+    Valid r :=
+  tensordotF_valid_of_spec .blockwise tdotASpec_blockwise a b r axesA axesB ha hb hfa hfb hadm h
 
 end ValidP
 end SymmModel
